@@ -332,6 +332,7 @@ impl<'a> Oracle<'a> {
             let clause = match a {
                 Abort::Deadlock => "deadlock",
                 Abort::StepBound => "step_bound",
+                Abort::Stuck => "harness_stuck",
             };
             let pending: Vec<String> = self
                 .run
